@@ -712,6 +712,49 @@ func (c *Ctx) widthFitsPalette(bitsFn, cr *ssa.Function) string {
 	return ""
 }
 
+// widthBoundedAndOwn: for every value of the bits-per-entry byte (0..255), bits(n) is a number
+// of at most 64 or the value of a package-level variable of the package that defines the
+// container's element type (the registry whose size fixes the direct width). A width above 64
+// makes 64/bits zero and the storage arithmetic divide by it.
+func (c *Ctx) widthBoundedAndOwn(bitsFn, ctor *ssa.Function) string {
+	sizes := c.TLG().sizesOf(bitsFn)
+	elemPkg := ""
+	if res := ctor.Signature.Results(); res.Len() > 0 {
+		if n, ok := types.Unalias(deref(res.At(0).Type())).(*types.Named); ok && n.TypeArgs() != nil && n.TypeArgs().Len() > 0 {
+			if en, ok := types.Unalias(n.TypeArgs().At(0)).(*types.Named); ok && en.Obj().Pkg() != nil {
+				elemPkg = en.Obj().Pkg().Path()
+			}
+		}
+	}
+	for n := int64(0); n <= 255; n++ {
+		ev := &skelEval{c: c, sizes: sizes}
+		var g *ssa.Global
+		ev.onInstr = func(in ssa.Instruction, get func(ssa.Value) *big.Int) {
+			if r, ok := in.(*ssa.Return); ok && len(r.Results) == 1 && get(r.Results[0]) == nil {
+				if ld, ok := stripConv(r.Results[0]).(*ssa.UnOp); ok && ld.Op == token.MUL {
+					g, _ = ld.X.(*ssa.Global)
+				}
+			}
+		}
+		args := make([]*big.Int, len(bitsFn.Params))
+		args[len(args)-1] = bi(n)
+		v, err := ev.run(bitsFn, args)
+		switch {
+		case err == nil && v != nil:
+			if v.Sign() < 0 || v.Cmp(bi(64)) > 0 {
+				return fmt.Sprintf("%s(%d) = %s: a width the peer chooses beyond 64 bits makes the values-per-long count 0 and the storage size computation divide by it", bitsFn.Name(), n, v)
+			}
+		case g != nil:
+			if elemPkg != "" && g.Pkg != nil && g.Pkg.Pkg.Path() != elemPkg {
+				return fmt.Sprintf("%s(%d) is the value of %s, the registry width of another element type (this container holds %s values)", bitsFn.Name(), n, g.String(), core.Rel(elemPkg))
+			}
+		default:
+			return fmt.Sprintf("%s(%d) is neither a number nor a registry width: %v", bitsFn.Name(), n, err)
+		}
+	}
+	return ""
+}
+
 // PaletteConfig implements T-PALCFG.
 func (c *Ctx) PaletteConfig() []core.Ob {
 	var obs []core.Ob
@@ -786,6 +829,11 @@ func (c *Ctx) PaletteConfig() []core.Ob {
 		// independent of how bits() is written (case lists, range tests, a lookup table).
 		if bad == "" && parts[0] == parts[1] {
 			bad = c.widthFitsPalette(bitsFn, cr)
+		}
+		// (3) the width is never the peer's choice beyond one machine word, and the direct width is the
+		// registry width of the container's own element type
+		if bad == "" {
+			bad = c.widthBoundedAndOwn(bitsFn, ctor)
 		}
 		if bad != "" {
 			o.Status, o.Got = core.Violated, bad
